@@ -225,8 +225,8 @@ theorem go_pipeline_core_eq_js (s0 d0 s d : Model.SR ℝ) (sc dc : Model.Consts 
 theorem twoHop_same (s0 d0 : Model.SR ℝ) (js jd : Js.Obj ℝ) (sd dd : Model.Datum ℝ) (jsd jdd : Js.Datum ℝ)
     (h1 : s0.datum = some sd) (h2 : d0.datum = some dd) (h3 : js.datum = some jsd) (h4 : jd.datum = some jdd)
     (t1 : jsd.datum_type = sd.datum_type) (t2 : jdd.datum_type = dd.datum_type)
-    (c1 : (js.datumCode != some "WGS84") = (s0.datumCode != "WGS84"))
-    (c2 : (jd.datumCode != some "WGS84") = (d0.datumCode != "WGS84")) :
+    (c1 : (js.datumCode != some "WGS84") = !Model.isWGS84Code s0.datumCode)
+    (c2 : (jd.datumCode != some "WGS84") = !Model.isWGS84Code d0.datumCode) :
     (js.datum.isSome && jd.datum.isSome && (Js.checkNotWGS js jd || Js.checkNotWGS jd js)) = Model.twoHop s0 d0 := by
   unfold Model.twoHop Js.checkNotWGS Model.checkNotWGS Js.PJD_3PARAM Js.PJD_7PARAM Model.pjd3Param Model.pjd7Param
   simp only [h1, h2, h3, h4, t1, t2, c1, c2, Option.isSome_some, Bool.true_and]
